@@ -270,7 +270,9 @@ func c04GenFnKeys(rng *rand.Rand, c Case, arity int, pool [][]string) Case {
 		fns[0] = "upper"
 	}
 	n := []int{1, 2, 2, 3}[rng.Intn(4)]
-	c.Cfg = append(c.Cfg, []string{"n", strconv.Itoa(n)}, append([]string{"fns"}, fns...))
+	win := []string{"cnt", "cnt", "glb"}[rng.Intn(3)] // CountingWindow(N) or GLOBAL WINDOW TRIGGER WHEN count(*) >= N
+	c.Cfg = append(c.Cfg, []string{"n", strconv.Itoa(n)}, append([]string{"fns"}, fns...), []string{"win", win})
+	c.Stat = append(c.Stat, "fn-keys-window-"+win)
 	nrows := 4 + rng.Intn(14)
 	for i := 0; i < nrows; i++ {
 		t := append([]string(nil), pool[rng.Intn(len(pool))]...)
@@ -510,7 +512,7 @@ func c04SQLDotted(style string, arity, n int, fns []string, raws [][]string) [][
 	}
 }
 
-func c04SQLFn(arity, n int, fns []string, raws [][]string) [][]string {
+func c04SQLFn(arity, n int, fns []string, raws [][]string, win string) [][]string {
 	names := make([]string, arity)
 	var sel, gb []string
 	for i := 0; i < arity; i++ {
@@ -520,7 +522,11 @@ func c04SQLFn(arity, n int, fns []string, raws [][]string) [][]string {
 		gb = append(gb, e)
 	}
 	sel = append(sel, "count(*) AS c", "collect(id) AS ids")
-	sql := "SELECT " + strings.Join(sel, ", ") + " FROM stream GROUP BY " + strings.Join(gb, ", ") + fmt.Sprintf(", CountingWindow(%d)", n)
+	w := fmt.Sprintf(", CountingWindow(%d)", n)
+	if win == "glb" {
+		w = fmt.Sprintf(", GLOBAL WINDOW TRIGGER WHEN count(*) >= %d", n)
+	}
+	sql := "SELECT " + strings.Join(sel, ", ") + " FROM stream GROUP BY " + strings.Join(gb, ", ") + w
 	s := streamsql.New(streamsql.WithDiscardLog())
 	defer s.Stop()
 	if err := s.Execute(sql); err != nil {
@@ -874,7 +880,7 @@ func (c04) Exec(c Case) [][][]string {
 						raws = append(raws, l[1:])
 					}
 				}
-				out = append(out, c04SQLFn(arity, n, fns, raws))
+				out = append(out, c04SQLFn(arity, n, fns, raws, c04CfgVal(c, "win", "cnt")))
 			default:
 				out = append(out, c04SQL(mode, arity, n, alias, rows))
 			}
